@@ -3,6 +3,7 @@ package main
 import (
 	"fmt"
 	"go/constant"
+	"go/token"
 	"go/types"
 	"strings"
 
@@ -390,6 +391,11 @@ func runC03(r *Report) {
 						ok = true
 					}
 				}
+			}
+			if !ok {
+				// a success for one constant input (`if encrypted == "" { return "", nil }`) is harmless when
+				// every caller refuses that input before it calls Decrypt
+				ok = constInputRefusedByCallers(r.P, dc, ret)
 			}
 			r.Ob("R-C03-6", ret.Pos(), ok, "Decrypt succeeds only with the plaintext the AEAD opened (authenticated decryption of the stored secret); any other success hands the verifier a secret an attacker can know", "Decrypt", "success-is-opened-plaintext")
 		}
@@ -1052,4 +1058,61 @@ func hmacKeyedParams(f *ssa.Function, depth int) (keyIdx, msgIdx int) {
 		return -1, -1
 	}
 	return
+}
+
+// constInputRefusedByCallers: ret lies on the edge where a parameter of f equals a constant, and every
+// static call site of f is on the edge where its argument for that parameter differs from the same
+// constant (the caller has already refused that input).
+func constInputRefusedByCallers(p *Prog, f *ssa.Function, ret *ssa.Return) bool {
+	for _, ft := range Facts(ret.Block()) {
+		bo, ok := ft.Cond.(*ssa.BinOp)
+		if !ok || !((bo.Op == token.EQL && ft.Pol) || (bo.Op == token.NEQ && !ft.Pol)) {
+			continue
+		}
+		prm, isP := stripValue(bo.X).(*ssa.Parameter)
+		k, isC := bo.Y.(*ssa.Const)
+		if !isP || !isC {
+			continue
+		}
+		idx := -1
+		for i, q := range f.Params {
+			if q == prm {
+				idx = i
+			}
+		}
+		sites := staticCallSites(p, f)
+		if idx < 0 || len(sites) == 0 {
+			continue
+		}
+		all := true
+		for _, c := range sites {
+			if idx >= len(c.Call.Args) {
+				all = false
+				break
+			}
+			arg := c.Call.Args[idx]
+			refused := false
+			for _, cf := range Facts(c.Block()) {
+				cb, ok := cf.Cond.(*ssa.BinOp)
+				if !ok || !((cb.Op == token.EQL && !cf.Pol) || (cb.Op == token.NEQ && cf.Pol)) {
+					continue
+				}
+				ck, isCK := cb.Y.(*ssa.Const)
+				if !isCK || ck.Value == nil || k.Value == nil || ck.Value.ExactString() != k.Value.ExactString() {
+					continue
+				}
+				if cb.X == arg || sameExpr(cb.X, arg) || (originSummary(cb.X) == originSummary(arg) && originSummary(arg) != "") {
+					refused = true
+				}
+			}
+			if !refused {
+				all = false
+				break
+			}
+		}
+		if all {
+			return true
+		}
+	}
+	return false
 }
